@@ -1368,7 +1368,7 @@ function translate_select_expression(select_expression) {
 
 function separate_string_literals(rbql_expression) {
     // The regex consists of 3 almost identicall parts, the only difference is quote type
-    var rgx = /('(\\(\\\\)*'|[^'])*')|("(\\(\\\\)*"|[^"])*")|(`(\\(\\\\)*`|[^`])*`)/g;
+    var rgx = /('(\\[^]|[^'\\])*')|("(\\[^]|[^"\\])*")|(`(\\[^]|[^`\\])*`)/g; // An escape sequence (backslash + any character) is consumed as a unit
     var match_obj = null;
     var format_parts = [];
     var string_literals = [];
